@@ -26,6 +26,8 @@ NAME_OK = {"valid", "valid-under-neutral-intermediate"}                         
 def gate_expected(config, cred, fault):
     if fault != "complete":
         return False
+    if config.endswith("+rotated-ca"):
+        return cred == "new-ca"          # after the client CA was replaced and the server restarted
     return cred in (CHAINS_OK if config == "norule" else NAME_OK)
 
 def run_c09(tier, seed):
@@ -124,6 +126,9 @@ def run_c15(tier, seed):
     rng = random.Random(seed)
     seqs = life_sequences(rng, tier)
     lines = ["%s %s" % (cfg, s) for cfg in ("plain", "tls", "both") for s in seqs]
+    # both ports enabled but no server certificate configured: Start fails; whatever it had opened must be given back by Stop
+    BADTLS = ["both-badtls %s" % s for s in ("SX", "SXSX", "SSX", "RX", "SXRX")]
+    lines += BADTLS
     shards = 8
     from concurrent.futures import ThreadPoolExecutor
     n = len(lines)
@@ -133,13 +138,14 @@ def run_c15(tier, seed):
         for r, o in ex.map(lambda part: run_mode(chk, "life", [], "\n".join(part) + "\n", timeout=1500), parts):
             rows += r
     # the lifecycle model's prediction (Coq: LifecycleThms.life_model, extracted) for the same sequences
-    rc, mo, _ = vlib.run_model(["life"], "\n".join(lines) + "\n", timeout=900)
+    mlines = [l for l in lines if not l.startswith("both-badtls")]
+    rc, mo, _ = vlib.run_model(["life"], "\n".join(mlines) + "\n", timeout=900)
     pred = {}
     for l in mo.splitlines():
         sp = l.split(" ", 1)
         if len(sp) == 2 and sp[0].isdigit():
-            pred[lines[int(sp[0])]] = sp[1]
-    if rc != 0 or len(pred) != len(lines):
+            pred[mlines[int(sp[0])]] = sp[1]
+    if rc != 0 or len(pred) != len(mlines):
         chk.violation("model-run-failure", "modelrun life failed rc=%s: %s" % (rc, mo[-300:]), dict(stage="model"), True)
     validated, distinct = 0, set()
     for r in rows:
